@@ -311,6 +311,11 @@ func (wf *Workflow) runProcs(procs map[string]WorkflowProcess) {
 	}
 
 	for _, proc := range procs {
+		// The driver process is run in the main go-routine below, so it must
+		// not also be started here
+		if proc.Name() == wf.driver.Name() {
+			continue
+		}
 		Debug.Printf(wf.name+": Starting process (%s) in new go-routine", proc.Name())
 		go proc.Run()
 	}
@@ -390,13 +395,6 @@ func (wf *Workflow) reconnectDeadEndConnections(procs map[string]WorkflowProcess
 			foundNewDriverProc = true
 			wf.driver = proc
 		}
-	}
-
-	if foundNewDriverProc && len(procs) > 1 { // Allow for a workflow with a single process
-		// A process can't both be the driver and be included in the main procs
-		// map, so if we have an alerative driver, it should not be in the main
-		// procs map
-		delete(wf.procs, wf.driver.Name())
 	}
 }
 
